@@ -174,6 +174,13 @@ impl ActTask for Act {
             }
 
             if count == tasks.len() {
+                // an act that waits for somebody else to complete it (a sub-process call) is not
+                // completed by the end of the steps of one of its own rules (a timeout) while
+                // the sub-process still runs; after its catch has taken the error the
+                // sub-process returned, nothing else will complete it
+                if !task.is_auto_complete() && !caught {
+                    return Ok(false);
+                }
                 if !task.state().is_completed() {
                     task.set_state(TaskState::Completed);
                 }
